@@ -626,6 +626,12 @@ def analyse(info, uni, vr):
 def fn_key_matches(fnkey, fname, fnpath):
     """does verus function name `lib::worker::Worker::send_file` (or impl&%N) belong to sidecar fn path?"""
     mod = fname[:-3]
+    m = re.match(r'<\s*[\w:]+(?:<[^>]*>)?\s+for\s+([\w:]+)', fnpath)
+    if m:
+        # a method of `impl Trait for Type`: Verus names it after the type, also for types of other crates (std::net::udp::UdpSocket::send)
+        ty = m.group(1).split('::')[-1]
+        if fnkey.endswith('::%s::%s' % (ty, last_seg(fnpath))) or fnkey.endswith('::%s::_VERUS_VERIFIED_%s' % (ty, last_seg(fnpath))):
+            return True
     return fnkey.startswith('lib::%s::' % mod) and (fnkey.endswith('::' + last_seg(fnpath)) or fnkey.endswith('::_VERUS_VERIFIED_' + last_seg(fnpath)))
 
 
